@@ -286,6 +286,22 @@ def build_catalogue():
         return (lambda: ()), call
     op("dataheader.default_ctor_then_write", "shared")(dh_default_mutate)
 
+    # ---- every class that can be built with all optional arguments left at their defaults: build one, hand it to the caller, who then
+    #      writes into everything it owns (attributes, buffers, lists, dicts, nested objects).  The next object built the same way -- and
+    #      every other entry point -- must not notice (a default argument evaluated once and shared by all instances does)
+    from mc import hist as _hist
+    dc_ok, dc_skipped = _hist.default_constructible(env.import_all_okdmr(), (".etsi.", ".hytera.pdu", ".hytera.ipsc_elements", ".hytera.hytera_ipsc", ".motorola."))
+    DEFAULT_CTOR_SKIPPED[:] = dc_skipped
+    for qual, cls_ in dc_ok:
+        op(f"default_ctor.{qual}", "dflt", "deepwrite")(lambda cls_=cls_: ((lambda: ()), (lambda: _hist.build_with_defaults(cls_))))
+        if callable(getattr(cls_, "as_bytes", None)) or callable(getattr(cls_, "as_bits", None)):
+            def ser(cls_=cls_):
+                def call():
+                    o = _hist.build_with_defaults(cls_)
+                    return [_outcome_of(getattr(o, m_)) for m_ in ("as_bytes", "as_bits") if callable(getattr(o, m_, None))]
+                return (lambda: ()), call
+            op(f"default_ctor_serialise.{qual}", "dflt")(ser)
+
     # ---- Hytera --------------------------------------------------------------------------------------------------
     for i, hx in enumerate(("32420020000183040001869f04010211000300040a000064bd03", "324200000001024108050000d20400000e03",
                             "32420020000b830400066b0e0401010245b810000100040004000000fd080000fa372300c303")):
@@ -364,6 +380,26 @@ def build_catalogue():
             return MBXML.as_bytes(doc)
         return (lambda: ()), call
     op("lrrp.get_token_plain", "shared")(lrrp_token2)
+    # the lookup API and the per-document-type configuration (what it answers must not depend on which documents were handled before)
+    def _outcome(f):
+        try:
+            return f()
+        except Exception as e:  # noqa: BLE001
+            return "raises:" + type(e).__name__
+
+    def _tables(lst):
+        return [sorted((k, getattr(v, "name", None), tuple(x if isinstance(x, int) else getattr(x, "token_id", None) for x in (getattr(v, "attributes", None) or ()))) for k, v in d.items()) for d in lst]
+
+    for isreq in (True, False):
+        op(f"lrrp.get_token_by_id_all_ids_{'request' if isreq else 'report'}", "shared")(lambda isreq=isreq: ((lambda: ()), (lambda: [
+            _outcome(lambda i=i: (lambda t: (t.token_id, t.name, len(t.attributes or ())))(LRRP.get_token(name=i, value=None, attributes={}, is_request=isreq))) for i in range(0x80)])))
+        op(f"lrrp.get_known_tokens_{'request' if isreq else 'report'}", "lookup")(lambda isreq=isreq: ((lambda: ()), (lambda: _tables(LRRP.get_known_tokens(is_request=isreq)))))
+        op(f"lrrp.get_attribute_by_id_all_ids_{'request' if isreq else 'report'}", "lookup")(lambda isreq=isreq: ((lambda: ()), (lambda: [
+            _outcome(lambda i=i: (lambda r: (r[0].token_id, r[0].name, r[1]))(LRRP.get_attribute(name=i, value=None, is_request=isreq))) for i in range(0x80)])))
+    op("lrrp.get_configuration_every_document_type", "lookup")(lambda: ((lambda: ()), (lambda: [
+        (d.name, _outcome(lambda d=d: (lambda c: sorted((tt.name, _tables([tab])) for tt, tab in c.items()) if isinstance(c, dict) else repr(c))(LRRP.get_configuration(d)))) for d in MBXMLDocumentIdentifier])))
+    op("mbxml.from_bytes_every_document_type", "parse")(lambda: ((lambda: ()), (lambda: [
+        (i, _outcome(lambda i=i: [(type(x).__name__, x.id.name, [(p_.token_id, p_.name) for p_ in x.parts], MBXML.as_bytes(x).hex()) for x in MBXML.from_bytes(bytes([i, 0x06, 0x22, 0x04, 0x24, 0x68, 0xAC, 0xE0]))])) for i in range(0x00, 0x30)])))
     op("tms.roundtrip", "parse")(lambda: ((lambda: (HEX("000ea00000840d000a00540045005300"),)), (lambda d: _tms(TextMessagingService, d))))
     op("ars.roundtrip", "parse")(lambda: ((lambda: (HEX("0010F5000231310939393939393939393900"),)), (lambda d: AutomaticRegistrationService.from_bytes(d).as_bytes())))
     op("lp.default_ctor_gps")(lambda: ((lambda: ()), (lambda: _lp_default(LocationProtocol))))
@@ -496,6 +532,14 @@ def _lp_default(LP):
 # execution
 # ------------------------------------------------------------------------------------------------
 SKIP = frozenset({"_io", "_parent", "_root", "log_instance", "_log", "_debug"})
+DEFAULT_CTOR_SKIPPED = []
+
+
+def _outcome_of(f):
+    try:
+        return f()
+    except Exception as e:  # noqa: BLE001
+        return "raises:" + type(e).__name__
 
 
 def run_op(name, keep=False):
@@ -537,13 +581,19 @@ def run_op(name, keep=False):
                             pass
         if keep:
             return rd, ok, short, res
-        scribble(res)
+        if "deepwrite" in flags:
+            try:
+                _scramble_everything(res, public_only=True)
+            except Exception:  # noqa: BLE001
+                pass
+        else:
+            scribble(res)
     if keep:
         return rd, ok, short, res
     return rd, ok, short
 
 
-def run_after_kept(j, kept_obj, kept_digest):
+def run_after_kept(j, kept_obj, kept_digest, deep=False):
     """in a forked child: (1) op j while the caller still holds the untouched result of the first op -- that result must not change;
     (2) the caller overwrites the kept result in place, then op j again.  Both runs of j are returned."""
     r, w = os.pipe()
@@ -558,7 +608,13 @@ def run_after_kept(j, kept_obj, kept_digest):
                     intact = h(canon(kept_obj, skip=SKIP)) == kept_digest
                 except Exception:  # noqa: BLE001
                     intact = False
-                scribble(kept_obj)
+                if deep:
+                    try:
+                        _scramble_everything(kept_obj, public_only=True)
+                    except Exception:  # noqa: BLE001
+                        pass
+                else:
+                    scribble(kept_obj)
             second = run_op(j)
             data = pickle.dumps((first, second, intact))
         except BaseException as e:  # noqa: BLE001
@@ -581,7 +637,7 @@ def why(short, name):
     return "argument_buffer_modified:" + name, f"{name} changed a buffer passed to it"
 
 
-from mc.hist import scribble as _scribble_buffers, scramble_shallow, observe as _observe  # noqa: E402
+from mc.hist import scribble as _scribble_buffers, scramble_shallow, scramble as _scramble_everything, observe as _observe  # noqa: E402
 
 
 def scribble(res):
@@ -684,7 +740,7 @@ def w_pairs_from(first):
                 acc.violation(why(res_i[2], first)[0], {"sequence": [first]}, why(res_i[2], first)[1])
             for j in OPS:
                 # forked from this child: state = after `first`, whose result the caller still holds
-                r1, r2, intact = run_after_kept(j, kept, res_i[0])
+                r1, r2, intact = run_after_kept(j, kept, res_i[0], deep="deepwrite" in OPS[first][2])
                 case = {"sequence": [first, j]}
                 if str(r1[0]).startswith("CHILD-CRASH"):
                     acc.violation("child_crashed", {**case, "detail": str(r1[0])[:200]})
@@ -712,6 +768,113 @@ def w_pairs_from(first):
         data = f.read()
     os.waitpid(pid, 0)
     return pickle.loads(data)
+
+
+def _mutable_kind(x):
+    if isinstance(x, bitarray):
+        return "bitarray-" + x.endian()
+    if isinstance(x, bytearray):
+        return "bytearray"
+    if isinstance(x, list):
+        return "list"
+    if type(x).__module__ == "numpy" and hasattr(x, "shape"):
+        return "numpy" + repr(tuple(x.shape))
+    return None
+
+
+def _arg_shape(name):
+    try:
+        return tuple(_mutable_kind(x) for x in OPS[name][0]())
+    except Exception:  # noqa: BLE001
+        return ()
+
+
+def _digest_call(call, args):
+    try:
+        res = call(*args)
+        return h(canon(res, skip=SKIP)), type(res).__name__
+    except Exception as e:  # noqa: BLE001
+        return "raises:" + type(e).__name__, "raises:" + type(e).__name__
+
+
+def _nudge(x):
+    """the caller edits its buffer in place (one bit / one element), keeping the length"""
+    k = _mutable_kind(x)
+    if k and k.startswith("bitarray") and len(x):
+        x[len(x) // 2] = not x[len(x) // 2]
+    elif k == "bytearray" and len(x):
+        x[len(x) // 2] ^= 0x01
+    elif k == "list" and len(x) and isinstance(x[len(x) // 2], int):
+        x[len(x) // 2] ^= 1
+    elif k and k.startswith("numpy") and x.size:
+        flat = x.reshape(-1)
+        flat[x.size // 2] = 1 - flat[x.size // 2] if flat[x.size // 2] in (0, 1) else flat[x.size // 2] + 1
+
+
+def _reuse_same(name):
+    """(expected, got): op, the caller nudges the op's own argument buffers in place, op again with the same objects;
+    expected = the op on fresh buffers with the nudged content, taken in another child of the pristine parent"""
+    mk, call, _ = OPS[name]
+
+    def expected(_):
+        a = mk()
+        for x in a:
+            _nudge(x)
+        return _digest_call(call, a)
+
+    def got(_):
+        from mc.hist import overwrite_in_place
+
+        a = mk()
+        _digest_call(call, a)
+        for x, x0 in zip(a, mk()):
+            if _mutable_kind(x):
+                overwrite_in_place(x, x0)  # (an in-place repair may have changed it: the caller writes the whole content again)
+                _nudge(x)
+        return _digest_call(call, a)
+
+    return run_isolated_value(expected, None), run_isolated_value(got, None)
+
+
+def _reuse_cross(pair):
+    """op X on its buffers, then the caller overwrites those same objects in place with the arguments of op Y and calls Y with them"""
+    from mc.hist import overwrite_in_place
+
+    x, y = pair
+    a = list(OPS[x][0]())
+    _digest_call(OPS[x][1], a)
+    b = OPS[y][0]()
+    for i, v in enumerate(b):
+        if _mutable_kind(v):
+            overwrite_in_place(a[i], v)
+        else:
+            a[i] = v
+    return _digest_call(OPS[y][1], a)
+
+
+def w_reuse_from(first):
+    acc = Acc()
+    shape = _arg_shape(first)
+    e, g = _reuse_same(first)
+    case = {"sequence": [first, "caller edits the argument buffers in place", first]}
+    if isinstance(e, str) or isinstance(g, str):
+        acc.violation("child_crashed", {**case, "detail": str(e)[:100] + " / " + str(g)[:100]})
+    elif e[0] != g[0]:
+        acc.violation(f"answer_for_an_earlier_content_of_the_callers_buffer:{first}", {**case, "fresh_buffers": e[1], "reused_buffers": g[1]},
+                      f"{first} called again with the same argument objects after the caller changed their content gives another result than for fresh objects with that content")
+    acc.case(nontrivial=True, calls=3, outcome="same_op", sample=case if len(acc.samples) < 1 else None)
+    for y in OPS:
+        if y == first or _arg_shape(y) != shape:
+            continue
+        g = run_isolated_value(_reuse_cross, (first, y))
+        case = {"sequence": [first, "caller overwrites the same argument objects in place", y]}
+        if isinstance(g, str):
+            acc.violation("child_crashed", {**case, "detail": g[:200]})
+        elif g[0] != FRESH[y][0]:
+            acc.violation(f"result_depends_on_what_the_callers_buffer_held_before:{y}", {**case, "fresh": FRESH[y][2], "reused_buffers": g[1]},
+                          f"{y} gives another result when its argument objects were used for {first} before and overwritten in place")
+        acc.case(nontrivial=True, calls=2, outcome="cross", sample=None)
+    return acc
 
 
 def dump_fresh():
@@ -785,6 +948,7 @@ def run(only=None):
             s.case(nontrivial=False)
     s.extra["ops"] = {n: FRESH[n][2] for n in names}
     s.extra["ops_raising_when_fresh"] = [n for n in names if FRESH[n][2].startswith("raises")]
+    s.extra["classes_not_built_with_defaults"] = list(DEFAULT_CTOR_SKIPPED)
     s.done()
     # ---- seams: clock / randomness independence of parsing -------------------------------------------
     s = rep.sub("clock_randomness_independence", "every op alone under two seam settings (clock, token/uuid counters, random seed); parse ops must return the fresh digest")
@@ -870,6 +1034,18 @@ def run(only=None):
         s.declared = len(names) ** 2
         for acc in par.pmap(w_pairs_from, names):
             s.merge(acc)
+        s.done()
+    # ---- the caller re-uses its argument buffers ---------------------------------------------------------------
+    if not only or "argument_buffers_reused_by_the_caller" in only:
+        reus = [n for n in names if any(_arg_shape(n))]
+        s = rep.sub("argument_buffers_reused_by_the_caller",
+                    f"the {len(reus)} ops that take a bitarray / bytearray / list / numpy array: (a) the op, the caller changes one bit / element of the SAME argument "
+                    "objects in place, the op again -- same result as for fresh objects of that content; (b) for every ordered pair of such ops with "
+                    "the same argument shapes: op X, the caller overwrites the same objects in place with Y's arguments, op Y -- Y's fresh result.  "
+                    "Each history in its own forked child of the pristine parent")
+        for acc in par.pmap(w_reuse_from, reus):
+            s.merge(acc)
+        s.extra["ops_with_mutable_arguments"] = len(reus)
         s.done()
     # ---- triples over shared-state ops -------------------------------------------------------------------
     if not only or "shared_state_triples" in only:
